@@ -215,6 +215,12 @@ def run_harness(sub, cases_text, extra=None, timeout=600):
         return 124, out + "\n[timeout after %ss]" % timeout
 
 
+def big_stack():
+    """preexec_fn: the extracted checkers recurse over byte lists (one frame per byte of a log write)"""
+    import resource
+    resource.setrlimit(resource.RLIMIT_STACK, (resource.RLIM_INFINITY, resource.RLIM_INFINITY))
+
+
 def run_model(driver, cases_text, timeout=600):
     rc, out = sh([os.path.join(BUILD, driver)], input=cases_text, timeout=timeout)
     return rc, out
